@@ -791,6 +791,14 @@ sz_metadata* SZ_getMetadata(unsigned char* bytes)
 			unsigned char* raBytes = &(bytes[index]);
 			defactoNBBins = bytesToInt_bigEndian(raBytes + sizeof(int) + sizeof(double));
 		}
+		else if(confparams_dec->dataType!=SZ_FLOAT && confparams_dec->dataType!=SZ_DOUBLE)
+		{
+			//integer streams have their own layout (convertTDPStoBytes_int): flags, parameters, exactByteSize, length, two interval counts,
+			//minimum, precision and three sizes precede the coded type array, whose second word is the real number of intervals
+			int offset_typearray = 3 + 1 + MetaDataByteLength + 1 + exe_params->SZ_SIZE_TYPE + 4 + 4 + 8 + 8
+					+ exe_params->SZ_SIZE_TYPE + exe_params->SZ_SIZE_TYPE + exe_params->SZ_SIZE_TYPE + 4;
+			defactoNBBins = bytesToInt_bigEndian(bytes+offset_typearray);
+		}
 		else
 		{
 			int radExpoL = 0, segmentL = 0, pwrErrBoundBytesL = 0;
